@@ -6,6 +6,7 @@ package harness
 // file-backed storage behind recording wrappers, crash = directory image + zombie.
 
 import (
+	"sync/atomic"
 	"bytes"
 	"crypto/sha256"
 	"encoding/binary"
@@ -443,6 +444,19 @@ func (s *Sim) Boot(id uint64, dir string, inc int, boot []uint64) (*SimNode, err
 		if err := r.Bootstrap(m); err != nil {
 			return nil, fmt.Errorf("Bootstrap: %w", err)
 		}
+		// the map is the caller's (an application keeps its table of peers and goes on editing it): emptying it
+		// and adding a stranger after Bootstrap has returned must not change the node's configuration
+		cb := r.Configuration()
+		before := CfgFromRaft(&cb).String()
+		for k := range m {
+			delete(m, k)
+		}
+		m["99"] = "scribble"
+		ca := r.Configuration()
+		if after := CfgFromRaft(&ca).String(); after != before {
+			bootAliasSet(fmt.Sprintf("node %d bootstrapped with %v: configuration %s; after the caller edited its own map: %s", id, boot, before, after))
+		}
+		bootProbed.Add(1)
 	}
 	n := &SimNode{ID: id, Inc: inc, Dir: dir, R: r, Tr: tr, FSM: fsm, Rec: rec, RawLog: rawLog, RawState: st, RawSnap: sn}
 	s.Net.mu.Lock()
@@ -451,6 +465,12 @@ func (s *Sim) Boot(id uint64, dir string, inc int, boot []uint64) (*SimNode, err
 	s.Nodes[id] = n
 	return n, nil
 }
+
+func bootAliasSet(d string) { bootAlias.CompareAndSwap(nil, &d) }
+
+// what the Bootstrap probe of Boot saw (reported by every engine's Report.Write)
+var bootAlias atomic.Pointer[string]
+var bootProbed atomic.Int64
 
 // alignStart: every incarnation starts in its own 10 µs class of the millisecond. The library's
 // election tickers sleep whole milliseconds and draw their next timeout from ONE process-wide
